@@ -27,6 +27,19 @@ def cases(tier, seed):
         cs.append({'scen': 'tt_layer', 's': {'size_in': sin, 'size_out': sout, 'rank': [1] + [2] * (d - 1) + [1], 'batch': [2], 'init': 'He', 'dtype': 'float32'}})
         for mode in ('eval', 'eval_then_update', 'load_state_dict'):
             cs.append({'scen': 'tt_layer', 's': {'size_in': sin, 'size_out': sout, 'rank': [1] + [2] * (d - 1) + [1], 'batch': [2], 'init': 'Glo' if mode == 'eval' else 'He', 'dtype': 'float64', 'mode': mode, 'call': True}})
+    # four modes, growing at the left end / shrinking at the right end (contraction-order heuristics), neighbouring output modes equal and different
+    for sin, sout in [([1, 2, 2, 3], [3, 2, 2, 1]), ([1, 2, 3, 2], [2, 3, 2, 1])] + ([([2, 3, 3, 4], [4, 3, 3, 2]), ([3, 2, 2, 1], [1, 2, 2, 3])] if th else []):
+        for rank in ([1, 1, 1, 1, 1], [1, 2, 1, 2, 1]):
+            for batch in ([], [2]):
+                cs.append({'scen': 'tt_layer', 's': {'size_in': sin, 'size_out': sout, 'rank': rank, 'batch': batch, 'init': 'He', 'dtype': 'float64', 'call': True}})
+    # precision changed after construction
+    for sin, sout in [([2, 3], [3, 1]), ([3], [2])]:
+        d = len(sin)
+        for dt, to in (('float32', 'float64'), ('float64', 'float32')):
+            for how in ('method', 'to_kw', 'to_pos'):
+                cs.append({'scen': 'tt_layer', 's': {'size_in': sin, 'size_out': sout, 'rank': [1] + [2] * (d - 1) + [1], 'batch': [2], 'init': 'He', 'dtype': dt, 'convert': how, 'convert_to': to, 'call': True}})
+        cs.append({'scen': 'tt_layer', 's': {'size_in': sin, 'size_out': sout, 'rank': [1] + [2] * (d - 1) + [1], 'batch': [], 'init': 'Glo', 'dtype': 'float32', 'convert': 'to_kw', 'convert_to': 'float64',
+                                             'mode': 'load_state_dict', 'call': True}})
     return cs
 
 
